@@ -532,7 +532,7 @@ def r9_index(toks, log, names, tuple_index=False, rule="R9"):
                 s = postfix_start(toks, i)
                 base = toks[s:i]
                 nxt = toks[c + 1] if c + 1 < len(toks) else None
-                mut = nxt is not None and P(nxt, "=")
+                mut = nxt is not None and nxt.kind == "punct" and nxt.text in ("=", "+=", "-=", "*=", "/=")
                 amp_mut = s >= 2 and toks[s - 1].kind == "id" and toks[s - 1].text == "mut" and P(toks[s - 2], "&")
                 amp = s >= 1 and P(toks[s - 1], "&")
                 ln = t.line
@@ -543,7 +543,8 @@ def r9_index(toks, log, names, tuple_index=False, rule="R9"):
                 elif amp:
                     toks[s - 1:c + 1] = call; start = s - 1
                 else:
-                    call = [T("punct", "*", ln)] + call
+                    # parenthesised so that a following method call / field access applies to the element
+                    call = [T("punct", "(", ln), T("punct", "*", ln)] + call + [T("punct", ")", ln)]
                     toks[s:c + 1] = call; start = s
                 log.append((rule, ln, "index -> %s call on %s" % (meth, "".join(u.text for u in base))))
                 i = start + 1
@@ -703,8 +704,10 @@ def fix_rhs_index_mut(toks):
         t = toks[i]
         if t.kind == "id" and t.text == "index_mut" and P(toks[i - 1], "."):
             c = match_close(toks, i + 1)
-            if not (c + 1 < len(toks) and P(toks[c + 1], "=")):
-                # is it an `&mut`-taking context? keep if preceded by nothing deref
+            nxt = toks[c + 1] if c + 1 < len(toks) else None
+            nxt2 = toks[c + 2] if c + 2 < len(toks) else None
+            assigned = (nxt is not None and P(nxt, "=")) or (nxt is not None and P(nxt, ")") and nxt2 is not None and P(nxt2, "="))
+            if not assigned:
                 s = postfix_start(toks, i - 1)
                 if s > 0 and P(toks[s - 1], "*"):
                     t.text = "index"
